@@ -260,7 +260,7 @@ def _eval_ctx(case, acc=None):
     seed = case.get("seed", 0)
     heavy_ok = case.get("heavy_ok", False)
     out = []
-    pw, bad = f"pw-{seed}-right", f"pw-{seed}-wrong"
+    pw, bad = f"R{seed}-right", f"W{seed}-wrong"  # differ in the first character (des_crypt reads 8)
     # ---- validity ------------------------------------------------------------------------------------------
     try:
         model = M.Policy(cfg)
@@ -282,8 +282,9 @@ def _eval_ctx(case, acc=None):
         return out
     acc.outcome("loaded")
 
-    def viol(comp, cls, desc):
-        out.append((f"C04|{comp}|{cls}", f"{desc}  [config {cfg!r}]"))
+    def viol(comp, cls, desc, ck=None):
+        # raw key; "@<category kind>" is folded / kept by finalize_keys()
+        out.append((f"C04|{comp}|{cls}" + (f"@{ck}" if ck else ""), f"{desc}  [config {cfg!r}]"))
 
     H = model.handlers
 
@@ -352,7 +353,7 @@ def _eval_ctx(case, acc=None):
         st, r = call(ctx.default_scheme, category=cat)
         acc.ev()
         if (st, r) != ("ok", d):
-            viol(d, f"default_scheme:{CATKIND[cat]}", f"default_scheme({cat!r}) = {st} {r!r}, model {d!r}")
+            viol(d, "default_scheme", f"default_scheme({cat!r}) = {st} {r!r}, model {d!r}", CATKIND[cat])
         real = heavy_ok or not heavy[cat]
         for end in ENDS:
             rng = EndRng(end, seed)
@@ -398,8 +399,8 @@ def _eval_ctx(case, acc=None):
             if st != "ok":
                 viol(s, f"needs_update:raises:{r}", f"needs_update({h!r}, category={cat!r}) raised {r}")
             elif bool(r) != want:
-                viol(s, f"needs_update:{reason}:missed:{ck}" if want else f"needs_update:{pos}:spurious:{ck}",
-                     f"needs_update({h!r}, category={cat!r}) = {r!r}, model {want} (scheme {owner}, deprecated={model.deprecated(owner, cat)}, cost {cost}, window {w})")
+                viol(s, f"needs_update:{reason}:missed" if want else f"needs_update:{'in_window' if pos != '-' else 'no_window'}:spurious",
+                     f"needs_update({h!r}, category={cat!r}) = {r!r}, model {want} (scheme {owner}, deprecated={model.deprecated(owner, cat)}, cost {cost}, window {w})", ck)
             if not real:
                 continue
             # verify (category has no influence: one category per probe, rotating)
@@ -506,7 +507,7 @@ def _eval_libpass(case, acc=None):
     acc = acc if acc is not None else Acc()
     names = case["schemes"]
     seed = case.get("seed", 0)
-    pw, bad = f"pw-{seed}-right", f"pw-{seed}-wrong"
+    pw, bad = f"R{seed}-right", f"W{seed}-wrong"  # differ in the first character (des_crypt reads 8)
     hz = {n: libpass_hasher(n, None) for n in LIBPASS}
     out = []
     st, ctx = call(LC, [hz[n] for n in names])
@@ -548,10 +549,52 @@ def _eval_libpass(case, acc=None):
     return out
 
 
+FIXED_COMPONENTS = ("config", "libpass", "any_scheme")
+
+
+def split_key(raw):
+    body, _, ck = raw.partition("@")
+    _, comp, cls = body.split("|", 2)
+    return comp, cls, ck
+
+
+def key_variants(raw):
+    """every final key a raw key may be reported under (see finalize_keys)"""
+    comp, cls, ck = split_key(raw)
+    out = []
+    for c in (comp, "any_scheme") if comp not in FIXED_COMPONENTS else (comp,):
+        out.append(f"C04|{c}|{cls}")
+        if ck:
+            out.append(f"C04|{c}|{cls}:{ck}")
+    return out
+
+
+def finalize_keys(violations):
+    """one defect -> a handful of keys: a failing class seen under >= 2 category kinds loses the category suffix, one
+    seen for >= 3 schemes is reported under the component 'any_scheme' (the description still names scheme / category)"""
+    cats, comps = {}, {}
+    for raw, _, _ in violations:
+        comp, cls, ck = split_key(raw)
+        cats.setdefault((comp, cls), set()).add(ck)
+    stage = []
+    for raw, desc, case in violations:
+        comp, cls, ck = split_key(raw)
+        cls2 = cls if (not ck or len(cats[comp, cls]) >= 2) else f"{cls}:{ck}"
+        stage.append((comp, cls2, desc, case))
+        if comp not in FIXED_COMPONENTS:
+            comps.setdefault(cls2, set()).add(comp)
+    return [(f"C04|{'any_scheme' if len(comps.get(cls2, ())) >= 3 else comp}|{cls2}", desc, case) for comp, cls2, desc, case in stage]
+
+
 def replay(case):
-    if case.get("part") == "libpass":
-        return eval_libpass(case)
-    return eval_ctx(case)
+    vs = eval_libpass(case) if case.get("part") == "libpass" else eval_ctx(case)
+    out, seen = [], set()
+    for raw, desc in vs:
+        for k in key_variants(raw):
+            if k not in seen:
+                seen.add(k)
+                out.append((k, desc))
+    return out
 
 
 # ---------------------------------------------------------------------------
@@ -614,9 +657,20 @@ def full_product_size(maxn):
     return total
 
 
+def expand(t, seed):
+    """compact task tuple -> self-contained case"""
+    part, idx, heavy_ok, L, d, dep, cat, rk, vi = t
+    if part == "libpass":
+        return {"part": "libpass", "schemes": list(L), "seed": seed, "idx": idx}
+    rs = [s for s in L if s in SCALE]
+    sp = {"schemes": list(L), "default": d, "dep": dep, "cat": cat, "rk": rk, "vary": VARIES[vi], "kinds": {s: kind_of(rk, j) for j, s in enumerate(rs)}}
+    return {"part": part, "spec": sp, "cfg": build_cfg(sp), "seed": seed, "heavy_ok": heavy_ok, "idx": idx}
+
+
 def work(task):
     acc = Acc()
-    for case in task["cases"]:
+    for t in task["cases"]:
+        case = expand(t, task["seed"])
         part = case["part"]
         if part == "libpass":
             vs = eval_libpass(case, acc)
@@ -648,7 +702,7 @@ def work(task):
 
 def run(ctx):
     seed = ctx.seed
-    cases = []
+    cases = []  # compact tuples (part, idx, heavy_ok, schemes, default, deprecated, override, rounds axis, vary index)
     seen_heavy = set()
     for sp in gen_specs(ctx.quick, seed):
         L = sp["schemes"]
@@ -660,26 +714,24 @@ def run(ctx):
             if cls not in seen_heavy:
                 seen_heavy.add(cls)
                 heavy_ok = True
-        cases.append({"part": "ctx", "spec": sp, "cfg": build_cfg(sp), "seed": seed, "heavy_ok": heavy_ok})
+        cases.append(("ctx", len(cases), heavy_ok, tuple(L), sp["default"], sp["dep"], sp["cat"], sp["rk"], VARIES.index(sp["vary"])))
     nctx = len(cases)
     for n in (2, 3) if ctx.quick else (2, 3, 4):
         for L in itertools.permutations(OVERLAP, n):
             for dep in (None, "auto"):
-                sp = {"schemes": list(L), "default": None, "dep": dep, "cat": "none", "rk": 0, "vary": "none", "kinds": {}}
-                cases.append({"part": "overlap", "spec": sp, "cfg": build_cfg(sp), "seed": seed, "heavy_ok": False})
+                cases.append(("overlap", len(cases), False, tuple(L), None, dep, "none", 0, 0))
     for n in (1, 2, 3):
         for L in itertools.permutations(LIBPASS, n):
-            cases.append({"part": "libpass", "schemes": list(L), "seed": seed})
-    for i, c in enumerate(cases):
-        c["idx"] = i
+            cases.append(("libpass", len(cases), False, tuple(L), None, None, "none", 0, 0))
     ctx.log(f"{nctx} pool contexts, {len(cases) - nctx} overlap / libpass contexts, {len(seen_heavy)} executed at expensive default cost")
     # heavy contexts first (long), then interleave for balance
-    heavy = [c for c in cases if c.get("heavy_ok")]
-    rest = [c for c in cases if not c.get("heavy_ok")]
+    heavy = [c for c in cases if c[2]]
+    rest = [c for c in cases if not c[2]]
     nsh = 512 if len(rest) > 20000 else 128
-    tasks = [{"cases": [c]} for c in heavy] + [{"cases": rest[i::nsh]} for i in range(nsh) if rest[i::nsh]]
+    tasks = [{"cases": [c], "seed": seed} for c in heavy] + [{"cases": rest[i::nsh], "seed": seed} for i in range(nsh) if rest[i::nsh]]
     acc = core.pmap(work, tasks)
     acc.violations.sort(key=lambda v: v[2].get("idx", 0))
+    acc.violations = finalize_keys(acc.violations)
     ctx.merge(acc)
     ctx.cov["states"] = acc.counters["states"]
     ctx.cov["transitions"] = acc.counters["transitions"]
